@@ -5,8 +5,21 @@ Correspondence: `get_traceback()` node list and `get_error()` kind against the L
 Oracle (implementation only): the chain of formula frames in the Python traceback of the
 original exception (cells, arguments, line) – independent of modelx's `rolledback`
 bookkeeping – must equal `get_traceback()` element by element, line by line.
+
+Scenario families (enumerated on every run, before the random programs; same correspondence and oracle):
+what the property says about *exceptions that formulas caught and handled themselves* – one top-level
+evaluation in which formulas handle k failures of their callees and which then fails for good.  Varied:
+k; the kinds of the handled and of the escaping exception (same kind / different kinds, NoneReturnedError,
+DeepReferenceError, KeyboardInterrupt); `except Exception` or `except <kind>`; where the handling formula
+sits (top of the escaping chain, inside it, beside it in a callee that completes, inside the chain of a
+failure that is itself handled); raising in the handler, in the handling formula itself, through an
+`except` that does not match; the shapes of the handled and of the escaping chain (length, cached /
+uncached cells, formulas given as lambdas, recursion); earlier top-level failures and retries.
 """
+import itertools
+
 from .. import exec_props as X
+from ..expr import lambda_ok
 from ..execworld import ExecImpl, node_s
 from ..impl import mx, quiet, err_kind
 from ..shadow import real_chain
@@ -15,19 +28,203 @@ from modelx.core.errors import FormulaError, NoneReturnedError
 CFG = {
     "weights": {"eval": 10, "reeval": 2, "clearat": 0.5, "clear": 0.3},
     "compare": ["tb"],
+    "model_obs": ["handled"],
     "maxdepths": [None, None, 5, 9],
     "raise_p": 0.12, "none_p": 0.06, "catch_all_p": 0.35,
-    "rule": "random programs whose formulas fail at every position of chains through cached and uncached "
-            "cells, with try/except around failing callees (handled failures) before and after the escaping "
-            "one; non-trivial = an escaping failure of chain length >= 2 in a history that also had a handled failure",
+    "fail_cell_p": 0.2, "handled_seq_p": 0.3, "lam_p": 0.25,
+    "rule": "scenario families (k handled failures, then an escaping one, in ONE top-level evaluation: kinds, "
+            "catch clauses, position of the handler, chain shapes through cached/uncached/lambda/recursive cells, "
+            "earlier failures and retries) and random programs whose formulas fail at every position of chains "
+            "through cached, uncached and lambda cells, with try/except around failing callees before and after "
+            "the escaping failure; non-trivial = a program with an escaping failure of chain length >= 2 in a "
+            "top-level evaluation in which formulas had handled at least one failure themselves (measured on the "
+            "model's roll-back list, whose result agreed with the implementation)",
 }
 
 KNOWN_LEAK = "C17-rolledback-leak"
 
 
+# ------------------------------------------------------------------------------ scenario families
+
+P0 = ("p", 0)
+
+
+def _lit(i):
+    return ("lit", i)
+
+
+def _call(c, arg):
+    return ("call", c, [arg])
+
+
+def _seq(first, rest):
+    """evaluate the expressions of `first` in order, then `rest` (operands are evaluated left to right)"""
+    for e in reversed(first):
+        rest = ("add", e, rest)
+    return rest
+
+
+class _Prog:
+    """program under construction; callees are defined before their callers (flavours: c = cached def,
+    u = uncached def, l = cached lambda, v = uncached lambda – a lambda only when the body is an expression)"""
+
+    def __init__(self):
+        self.cells = []
+
+    def cell(self, body, flav="c"):
+        cid = len(self.cells)
+        c = {"id": cid, "nparams": 1, "cached": flav in "cl", "allow_none": False, "body": body}
+        if flav in "lv" and lambda_ok(body):
+            c["lam"] = True
+        self.cells.append(c)
+        return cid
+
+    def chain(self, flavs, kind):
+        """A chain of cells that always fails, one letter of `flavs` per cells, outermost first; returns its head.
+        kind: 0..6 = the innermost raises that exception; "noneret" = it returns None where that is not allowed;
+        "deep" = it recurses beyond the recursion limit.  Flavour r (innermost only) = the innermost calls itself
+        three more times before it fails."""
+        inner = flavs[-1]
+        if kind == "noneret":
+            nxt, arg = self.cell(("none",), "l" if inner in "lv" else "c"), ("add", P0, _lit(1))
+        elif kind == "deep":
+            cid = len(self.cells)
+            nxt = self.cell(("if", ("lt", _lit(0), P0), ("add", _call(cid, ("sub", P0, _lit(1))), _lit(1)), _lit(0)),
+                            "c" if inner == "r" else inner)
+            arg = _lit(40)
+        elif inner == "r":
+            cid = len(self.cells)
+            nxt = self.cell(("if", ("lt", _lit(0), P0), _call(cid, ("sub", P0, _lit(1))), ("raise", kind)), "c")
+            arg = _lit(3)
+        else:
+            nxt, arg = self.cell(("raise", kind), inner), ("add", P0, _lit(1))
+        if len(flavs) == 1:
+            if kind == "deep" or inner == "r":
+                # give the recursion its start value
+                return self.cell(_call(nxt, arg), "c")
+            return nxt
+        for f in reversed(flavs[:-1]):
+            nxt, arg = self.cell(_call(nxt, arg), f), ("add", P0, _lit(1))
+        return nxt
+
+
+def _catch(kind, mode, i):
+    if mode == "all" or (mode == "mix" and i % 2 == 0):
+        return "all"
+    return {"noneret": "noneret", "deep": "deep"}.get(kind) or "k%d" % kind
+
+
+def scenario(label, khs, hflav, ke, eflav, pos, mode="mix", hist="full"):
+    """khs: kinds of the failures that are handled, in order; ke: kind of the failure that escapes;
+    hflav/eflav: shapes of the handled chains and of the escaping chain; pos: where the handling formula is"""
+    P = _Prog()
+    heads = {}
+    for kh in khs:
+        if kh not in heads:
+            heads[kh] = P.chain(hflav, kh)
+    E = P.chain(eflav, ke)
+    tries = [("try", _call(heads[kh], ("add", P0, _lit(i))), _catch(kh, mode, i), _lit(i)) for i, kh in enumerate(khs)]
+    esc = _call(E, P0)
+    probe = [E, heads[khs[0]]]
+    if pos == "top":            # the formula that was called handles, then calls the chain that fails
+        top = P.cell(_seq(tries, esc))
+    elif pos == "mid":          # the handling formula is inside the escaping chain
+        mid = P.cell(_seq(tries, esc), "u" if len(khs) % 2 == 0 else "c")
+        top = P.cell(_call(mid, P0), "l" if mode == "all" else "c")
+    elif pos == "sib":          # the handling formula completes (its value is kept); its caller fails afterwards
+        sib = P.cell(_seq(tries, _lit(7)), "u" if len(khs) % 2 == 0 else "c")
+        top = P.cell(("add", _call(sib, P0), esc), "l" if mode == "all" else "c")
+    elif pos == "afterok":      # a successful call between the handled failures and the escaping one
+        okc = P.cell(("add", P0, _lit(1)), "l")
+        top = P.cell(_seq(tries + [_call(okc, P0)], esc))
+    elif pos == "self":         # the handling formula raises itself
+        top = P.cell(_seq(tries, ("raise", ke) if isinstance(ke, int) else esc))
+    elif pos == "inhandler":    # the escaping failure happens while the first handled exception is being handled
+        t0 = tries[0]
+        top = P.cell(("try", t0[1], t0[2], _seq(tries[1:], esc)))
+    elif pos == "nested":       # the chain of a handled failure handled failures itself
+        k0 = khs[0] if isinstance(khs[0], int) else 0
+        inner = P.cell(_seq(tries, ("raise", k0)))
+        top = P.cell(_seq([("try", _call(inner, P0), "all", _lit(0))], esc))
+    elif pos == "nomatch":      # the escaping exception passes an `except` that does not match it
+        other = "k%d" % ((ke + 1) % 4 if isinstance(ke, int) else 0)
+        top = P.cell(_seq(tries, ("try", esc, other, _lit(0))))
+    elif pos == "walk":         # a recursion that handles a failure on every level and fails at the bottom
+        cid = len(P.cells)
+        top = P.cell(("if", ("lt", _lit(0), P0), _seq(tries, _call(cid, ("sub", P0, _lit(1)))), esc),
+                     "u" if mode == "all" else "c")
+    else:
+        raise ValueError(pos)
+    t = str(top)
+    if hist == "fresh":
+        ops = [["eval", t, "1"]]
+    else:
+        # earlier top-level failures of both chains, the evaluation, the same again (nothing of a failed evaluation
+        # is kept, so it fails the same way), another argument, and again after clearing
+        ops = [["eval", str(probe[0]), "2"], ["eval", str(probe[1]), "1"], ["eval", t, "1"], ["eval", t, "1"],
+               ["eval", t, "3" if pos == "walk" else "2"], ["clear", t], ["eval", t, "1"]]
+    return {"cells": P.cells, "refs": {0: 1, 1: 2, 2: 3, 3: 4}, "n_rn": 2,
+            "maxdepth": 12 if ("deep" in khs or ke == "deep") else None, "ops": ops, "label": label}
+
+
+def _khs(kh, ke, k):
+    """k handled kinds: the first of kind kh, then alternating with the kind that will escape (when a formula can
+    handle it) – both `same kind as the escaping one` and `another kind` occur among the handled ones"""
+    alt = ke if (ke in (0, 1, 2, 3, "noneret") and ke != kh) else (kh if not isinstance(kh, int) else (kh + 1) % 4)
+    return [kh if i % 2 == 0 else alt for i in range(k)]
+
+
+CORE_PAIRS = [(0, 0), (1, 1), (0, 1), (1, 0)]
+MORE_PAIRS = [(2, 2), (3, 3), (2, 1), (3, 0), (0, 6), (1, "noneret"), ("noneret", 0), ("noneret", "noneret"),
+              ("deep", 0), (0, "deep"), ("deep", "deep")]
+SHAPES = ["c", "u", "l", "cu", "lc", "uv", "r", "ccc"]
+ALL_SHAPES = SHAPES + ["v", "uc", "cl", "ur", "lr", "culc", "vvv"]
+POSITIONS = ["top", "mid", "sib", "afterok", "self", "inhandler", "nested", "nomatch", "walk"]
+
+
+def scenarios(rng, n_random):
+    out = []
+
+    def add(family, khs, hf, ke, ef, pos, mode="mix", hist="full"):
+        out.append(scenario("%s/k=%s esc=%s h=%s e=%s %s %s" % (family, khs, ke, hf, ef, pos, mode),
+                            khs, hf, ke, ef, pos, mode, hist))
+    # kinds x number of handled failures x position of the handler
+    for (kh, ke), k, pos in itertools.product(CORE_PAIRS, (1, 2, 3), ("top", "mid", "sib")):
+        add("kinds", _khs(kh, ke, k), "cc", ke, "cc", pos, ("all", "kind", "mix")[k - 1])
+    for i, (kh, ke) in enumerate(MORE_PAIRS):
+        for k in (1, 2):
+            add("kinds", _khs(kh, ke, k), "cc", ke, "cc", ("top", "mid", "sib")[(i + k) % 3], ("kind", "all")[k - 1])
+    # shapes of the handled chain x shapes of the escaping chain
+    for (i, hf), (j, ef) in itertools.product(enumerate(SHAPES), enumerate(SHAPES)):
+        kh, ke = CORE_PAIRS[(i + j) % 2]
+        add("shapes", _khs(kh, ke, 1 + (i + j) % 2), hf, ke, ef, ("top", "mid")[(i // 2 + j) % 2], ("all", "kind")[j % 2])
+    # other places where the escaping failure can arise
+    for pos, (kh, ke), k in itertools.product(("afterok", "self", "inhandler", "nested", "nomatch", "walk"),
+                                              ((0, 0), (1, 1), (0, 1)), (1, 2)):
+        add("places", _khs(kh, ke, k), "cu", ke, "uc", pos, ("kind", "all")[k - 1])
+    # many handled failures
+    for kh, ke in ((0, 0), (1, 1), (2, 0)):
+        add("many", _khs(kh, ke, 7), "cr", ke, "cc", "top", "all")
+    # a fresh model with nothing before the evaluation
+    for (kh, ke), pos in itertools.product(CORE_PAIRS, ("top", "mid")):
+        add("fresh", _khs(kh, ke, 1), "c", ke, "cc", pos, "all", "fresh")
+    # this run's draws from the full product
+    kinds_h = [0, 1, 2, 3, "noneret", "deep"]
+    kinds_e = [0, 1, 2, 3, 6, "noneret", "deep"]
+    for _ in range(n_random):
+        kh, ke = rng.choice(kinds_h), rng.choice(kinds_e)
+        if rng.random() < 0.5 and ke in kinds_h:
+            kh = ke
+        add("drawn", _khs(kh, ke, rng.choice([1, 1, 2, 3, 4])), rng.choice(ALL_SHAPES), ke, rng.choice(ALL_SHAPES),
+            rng.choice(POSITIONS), rng.choice(["all", "kind", "mix"]), rng.choice(["full", "full", "fresh"]))
+    return out
+
+
 def oracle(case, recs, out, stats):
     impl = ExecImpl(case["cells"], case["refs"], case["n_rn"], case["maxdepth"], log=False)
     nontrivial = False
+    # formula frames are recognised by their code objects (the frames of lambda formulas have no name of their own)
+    codes = {id(c._impl.formula.func.__code__): cid for cid, c in impl.cells.items()}
     try:
         for k, op in enumerate(case["ops"]):
             if op[0] != "eval":
@@ -47,14 +244,18 @@ def oracle(case, recs, out, stats):
                     continue
             stats["oracle_tracebacks_examined"] += 1
             got = [(impl.cid_of(n.obj._impl), tuple(n.args), ln) for n, ln in tb]
-            want = real_chain(orig)
+            want = real_chain(orig, codes)
+            handled = recs[k]["obs"].get("handled", ["", "handled 0 0 0"])[1].split() if k < len(recs) else []
+            after_handled = len(handled) == 4 and int(handled[2]) > 0
+            if after_handled:
+                stats["oracle_tracebacks_after_handled_failures"] += 1
             if isinstance(orig, NoneReturnedError):
                 # raised by modelx after the formula returned: the last element has no frame
                 want_nodes = [(c_, k_) for c_, k_, _ in want]
                 if [(c_, k_) for c_, k_, _ in got[:len(want)]] != want_nodes or len(got) != len(want) + 1:
                     _report(out, got, want, hist, case, "NoneReturned")
                 continue
-            if len(want) >= 2 and X.has_catch_all(case):
+            if len(want) >= 2 and after_handled:
                 nontrivial = True
             if got != want:
                 _report(out, got, want, hist, case, err_kind(orig))
@@ -78,7 +279,8 @@ def _report(out, got, want, hist, case, kind):
 
 
 def run(ctx, out):
-    X.run_family(ctx, out, CFG, oracle, 200, 3000)
+    X.run_family(ctx, out, CFG, oracle, 200, 3000,
+                 structured=scenarios(ctx.rng("scenarios"), ctx.n(40, 400)))
     out.assumptions.append("line numbers are CPython's; they are checked against the interpreter's own traceback of "
                            "the original exception by the oracle, not modelled in Lean")
 
